@@ -85,14 +85,21 @@ type PodSpec struct {
 	Prio    *int32
 }
 
-// podSpec: the shape of a pod key; shape "alt" is a different pod re-using the name (other volume, requests, cost).
+// podSpec: the shape of a pod key.  A pod name can be re-used by a different pod: shape "alt" has other requests,
+// another host port, the other volume and another deletion cost; shape "bare" has no host port, no volume, no
+// deletion cost / priority, other requests and the opposite daemonset ownership.
 func podSpec(key, shape string) PodSpec {
-	if shape == "alt" {
+	switch shape {
+	case "alt":
 		ps := podSpec(key, "-")
 		ps.CPU += 10
+		ps.Port = 82
 		ps.Vol = map[string]string{"va": "vb", "vb": "va", "": "va"}[ps.Vol]
 		ps.DelCost = "268435456"
 		return ps
+	case "bare":
+		ps := podSpec(key, "-")
+		return PodSpec{DS: !ps.DS, CPU: ps.CPU + 20}
 	}
 	switch key {
 	case "p1":
@@ -633,10 +640,43 @@ func (s *sim) objKey(kind, name string) string {
 	return "-"
 }
 
-func (s *sim) deliver(kind, name string) error {
+// readFault: "fail:<which>" makes one API read of the reconcile fail with a server error (the delivery is retried
+// later): own = the Get of the reconciled object, pods = the pod list of a Node reconcile, pvc / sc = the first
+// PersistentVolumeClaim / StorageClass lookup while resolving pod volumes, csinode = the CSINode lookup.
+func readFault(kind, how string) (world.Fault, bool) {
+	if !strings.HasPrefix(how, "fail:") {
+		return world.Fault{}, false
+	}
+	f := world.Fault{Nth: 1, Err: "Server"}
+	switch strings.TrimPrefix(how, "fail:") {
+	case "own":
+		f.Verb, f.Kind = "get", map[string]string{"ClaimGC": "NodeClaim"}[kind]
+		if f.Kind == "" {
+			f.Kind = kind
+		}
+	case "pods":
+		f.Verb, f.Kind = "list", "Pod"
+	case "pvc":
+		f.Kind = "PersistentVolumeClaim"
+	case "sc":
+		f.Kind = "StorageClass"
+	case "csinode":
+		f.Kind = "CSINode"
+	default:
+		return world.Fault{}, false
+	}
+	return f, true
+}
+
+func (s *sim) deliver(kind, name, how string) error {
 	var res reconcile.Result
 	var err error
 	okey := s.objKey(kind, name)
+	fault, faulty := readFault(kind, how)
+	if faulty {
+		s.w.AddFault(fault)
+		defer s.w.ClearFaults()
+	}
 	req := reconcile.Request{NamespacedName: types.NamespacedName{Name: name}}
 	panicked := "-"
 	func() {
@@ -679,14 +719,14 @@ func (s *sim) deliver(kind, name string) error {
 		}
 	}
 	s.tw.Emit(trace.M{"e": "Deliver", "kind": kind, "name": name, "requeue": requeue, "err": err != nil, "panic": panicked,
-		"keys": keys, "okey": okey})
+		"keys": keys, "okey": okey, "fault": lo.Ternary(faulty, how, "-")})
 	return nil
 }
 
 func (s *sim) step(st Step) error {
 	switch st.A {
 	case "Deliver":
-		return s.deliver(st.X, st.Y)
+		return s.deliver(st.X, st.Y, st.Z)
 	case "Mark", "Unmark":
 		hit := lo.Contains(s.cacheKeys(), st.X)
 		if st.A == "Mark" {
@@ -771,7 +811,8 @@ func RunOne(u Universe, b Behaviour, tw *trace.Writer) (int, int, error) {
 	s := &sim{w: w, ctx: ctx, u: u, pend: map[string]bool{}, tw: tw, created: map[string]*v1.NodeClaim{}}
 	shapes := trace.M{}
 	for _, p := range u.Pods {
-		shapes[p] = trace.M{"std": absPod(s.mkPod(p, "", "-")), "alt": absPod(s.mkPod(p, "", "alt"))}
+		shapes[p] = trace.M{"std": absPod(s.mkPod(p, "", "-")), "alt": absPod(s.mkPod(p, "", "alt")),
+			"bare": absPod(s.mkPod(p, "", "bare"))}
 	}
 	tw.Begin(trace.M{"module": "ClusterState", "tag": b.Tag, "nodes": u.Nodes, "claims": u.Claims, "pods": u.Pods, "pids": u.Pids,
 		"pools": u.Pools, "ports": u.Ports, "vols": u.Vols, "shapes": shapes})
